@@ -48,13 +48,13 @@ Proof. exact codec_roundtrip. Qed.
 Print Assumptions C02_codec_roundtrip.
 
 (* (4) in the library's own terms: every stored value normal, validate() reports nothing, no configuration at any depth
-   has its feature flag off (region of the open finding F36; `Normal` carries "list items still validate": F50) *)
+   has its feature flag off (region of the open finding F36).  Nothing is assumed about list items: validate() checks them *)
 Theorem C02_roundtrip_partial : forall F lvalidate lto_python lto_basic ldefault lcallable lsensitive lflag vrun py_strlen,
   (forall f x, lvalidate f x = Ok x ->
      exists b b', lto_basic f x = Ok b /\ lto_python f b = Ok b' /\ lvalidate f b' = Ok x) ->
   (forall n l1 l2, (forall k, vlookup k l1 = vlookup k l2) -> vrun n l1 = vrun n l2) ->
   forall dyn vs fs c,
-  Normal F lvalidate lflag vrun dyn fs c ->
+  Normal F lvalidate dyn fs c ->
   validate_errs F lvalidate lflag vrun (NSub dyn vs fs) [] (VCfg c) = [] ->
   known_F36 F lflag fs c = false ->
   forall w w0 fresh, build_cfg F ldefault lcallable w fs = (w0, fresh) ->
@@ -77,7 +77,7 @@ Print Assumptions C02_inst_tree_roundtrip.
    the rendered tree is rejected by load_tree *)
 Theorem C02_roundtrip_refuted_F36 :
   validate_errs leaf lvalidate lflag (vrun []) (NSub false [] f36_fs) [] (VCfg f36_c) = []
-  /\ Normal leaf lvalidate lflag (vrun []) false f36_fs f36_c
+  /\ Normal leaf lvalidate false f36_fs f36_c
   /\ known_F36 leaf lflag f36_fs f36_c = true
   /\ to_tree leaf lto_basic l_sensitive py_strlen None f36_fs f36_c = Ok f36_tree
   /\ snd (load_tree leaf lvalidate lto_python ldefault l_callable lflag (vrun []) f36_tree true f36_w []
@@ -85,15 +85,15 @@ Theorem C02_roundtrip_refuted_F36 :
 Proof. exact roundtrip_refuted_F36. Qed.
 Print Assumptions C02_roundtrip_refuted_F36.
 
-(* open finding F50: a list item made invalid after insertion passes validate() and cannot be loaded back *)
-Theorem C02_roundtrip_refuted_stale_item :
-  validate_errs leaf lvalidate lflag (vrun []) (NSub false [] f50_fs) [] (VCfg f50_c) = []
-  /\ known_F36 leaf lflag f50_fs f50_c = false
-  /\ to_tree leaf lto_basic l_sensitive py_strlen None f50_fs f50_c = Ok f50_tree
-  /\ snd (load_tree leaf lvalidate lto_python ldefault l_callable lflag (vrun []) f50_tree true w0 []
-            (snd (build_cfg leaf ldefault l_callable w0 f50_fs)) false [] f50_fs) = OErr (EValidation (sa "items[0].need")).
-Proof. exact (proj2 roundtrip_refuted_stale_item). Qed.
-Print Assumptions C02_roundtrip_refuted_stale_item.
+(* F50 (repaired): the state with a list item made invalid after insertion -- reached by public operations, Normal, no feature
+   flag off -- is now REJECTED by whole-configuration validation (validate_errs descends into list items), so it is not
+   a counterexample any more; C02_roundtrip_partial covers lists of configurations with no premise about their items *)
+Theorem C02_stale_item_rejected :
+  validate_errs leaf lvalidate lflag (vrun []) (NSub false [] f50_fs) [] (VCfg f50_c) = [EValidation (sa "items[0].need")]
+  /\ Normal leaf lvalidate false f50_fs f50_c
+  /\ known_F36 leaf lflag f50_fs f50_c = false.
+Proof. exact (proj2 stale_item_rejected). Qed.
+Print Assumptions C02_stale_item_rejected.
 
 (* the Boolean verdict the correspondence stream `roundtrip` compares with the implementation is implied by `same_values` *)
 Theorem C02_same_values_verdict : forall F fs ca cb, same_values F fs ca cb -> same_valuesb F fs ca cb = true.
